@@ -929,7 +929,7 @@ import props_c17
 REGISTRY['C17'] = dict(modules=['LibconfigModel.Properties.C17'], run=props_c17.run_C17, assumptions=COMMON_ASSUMPTIONS)
 
 import props_c03
-REGISTRY['C03'] = dict(modules=['LibconfigModel.Properties.C03', 'LibconfigModel.Properties.C03Term', 'LibconfigModel.Properties.Skeleton', 'LibconfigModel.Properties.C20Buffer'], run=props_c03.run_C03, assumptions=COMMON_ASSUMPTIONS + [
+REGISTRY['C03'] = dict(modules=['LibconfigModel.Properties.C03', 'LibconfigModel.Properties.C03Term', 'LibconfigModel.Properties.Skeleton', 'LibconfigModel.Properties.C20Buffer', 'LibconfigModel.Properties.C03Stack'], run=props_c03.run_C03, assumptions=COMMON_ASSUMPTIONS + [
     'PARTIAL: memory safety of the C code (flex buffer pointer arithmetic, memmove/realloc, ctype on char) is observed by ASan/UBSan/LSan on the executed paths only — validation, not proof',
     'the containers are modelled as size/index state machines (Containers.lean); that the C functions perform exactly these updates is read off strbuf.c, strvec.c, libconfig.c by hand and exercised under ASan',
     'the generic flex/bison skeleton loops (Flex.lean, Parser.lean) are hand-written models of generated code, tied by the read correspondence; yy_get_next_buffer and the bison stack reallocation are outside the model',
